@@ -366,6 +366,23 @@ def run(rep):
         names = {pn: ast.unparse(v[0]) for pn, v in a.items()}
         rep.check(names.get("aggindex") == "aggindex" and names.get("inputs") == "inputs" and names.get("outputs") == "outputs", "R08.a", "data/dutils.py", shim,
                   "arguments bound to the same-named shim parameters", str(names), line=st[0].call.lineno)
+        # the shim's typed memoryviews demand C-contiguous memory: the wrapper must hand over converted copies (astype / np.array / arithmetic /
+        # ascontiguousarray), not the caller's array itself, or a strided view (a column of a table, x[::2]) is rejected instead of aggregated
+        for pn in ("aggindex", "inputs"):
+            v = a.get(pn)
+            pa_ = st[0].shim.params.get(pn)
+            if v is None or pa_ is None or getattr(pa_, "mode", None) != "c":
+                continue
+            src_txt = " ".join(ast.unparse(x) for x in ast.walk(st[0].func) if isinstance(x, ast.Assign) and any(isinstance(t, ast.Name) and isinstance(v[0], ast.Name) and t.id == v[0].id for t in x.targets))
+            contiguous = v[1].fresh or "ascontiguousarray" in src_txt or "np.require" in src_txt
+            cons_c = f"`{pn}` reaches the kernel as a C-contiguous copy whatever the memory layout of the caller's array"
+            if contiguous:
+                rep.proved("R08.a", "data/dutils.py", shim, cons_c, line=st[0].call.lineno)
+            elif v[1].roots:
+                rep.violation("R08.a", "data/dutils.py", shim, cons_c, f"`{ast.unparse(v[0])}` can be the caller's own array ({sorted(v[1].roots)}): np.asarray / atleast_1d return it as is when "
+                              "the dtype already matches, and the typed memoryview of the shim raises 'ndarray is not C-contiguous' for a strided view", line=st[0].call.lineno, firm=True)
+            else:
+                rep.undecided("R08.a", "data/dutils.py", shim, cons_c, "origin of the array not tracked", line=st[0].call.lineno)
     mod = Mod(rep.repo, "data/dutils.py")
     st = [s_ for s_ in sites if s_.shim.name == "aggregate" and s_.func.name == "aggregate"][0]
     af = st.func
